@@ -104,6 +104,8 @@ func c04Req(h H, rule string) (copyOnWrite, hop, xff, other string, ncases int) 
 			set("Accept", astr("a"))
 			set("Upgrade", astr("websocket"))
 			set("X-Foo", astr("foo"))
+			// a hop-by-hop field whose first line is empty is still a field the client sent
+			set("Proxy-Authorization", astr(""), astr("Basic c2VjcmV0"))
 			if c.conn != "" {
 				var lines []aval
 				for _, l := range strings.Split(c.conn, "|") {
